@@ -32,6 +32,10 @@ def get_check(prop):
         from .objects import ObjectsCheck
 
         return ObjectsCheck(prop)
+    if prop in ("C17", "C18", "C19", "C20"):
+        from .misc import NativeCheck
+
+        return NativeCheck(prop)
     raise SystemExit(f"no check for {prop}")
 
 
